@@ -1,5 +1,6 @@
 import FitModel.Writer
 import FitModel.WriterShort
+import FitModel.WriterPanic
 import FitModel.Integrity
 import FitModel.Generated.WireConsts
 import Driver.Util
@@ -36,6 +37,12 @@ structure Cfg where
   ap : Bool := false
   hasF : Bool
   cont : Bool
+  /-- `m=c`: batch through `EncodeWithContext` -/
+  ctxMode : Bool := false
+  /-- `cx=i.k`: the context of the call for file `i` is cancelled after `k` polls (every other call: `context.Background()`) -/
+  cx : Option (Nat × Nat) := none
+  /-- `k=nil`: the encoder was made with a nil writer -/
+  nilw : Bool := false
   files : List Drv.W.WFile
 
 def parseKind : String → Option Kind
@@ -58,7 +65,14 @@ def parseFaults (s : String) : Option (List (Bool × Nat × Nat)) :=
 def parse (args : List String) (needKind : Bool) : Option Cfg := do
   let (kv, rest) := Drv.W.splitKV args
   let files ← Drv.W.parseWFiles rest
-  let kind ← if needKind then (kv.lookup "k").bind parseKind else some Kind.plain
+  let nilw := needKind && kv.lookup "k" == some "nil"
+  let kind ← if needKind && !nilw then (kv.lookup "k").bind parseKind else some Kind.plain
+  let cx ← match kv.lookup "cx" with
+    | none => some none
+    | some s => match s.splitOn "." with
+      | [a, b] => do let a ← a.toNat?; let b ← b.toNat?; pure (some (a, b))
+      | _ => none
+  if cx.isSome && kv.lookup "m" != some "c" then none
   let bs : Nat := match (kv.lookup "bs").bind parseInt with
     | some i => i.toNat
     | none => 0
@@ -72,13 +86,15 @@ def parse (args : List String) (needKind : Bool) : Option Cfg := do
     | some s => s != "-" && !s.isEmpty
     | none => false
   if (fs.map (·.2.1)).eraseDups.length != fs.length then none
+  if cx.isSome && (fs.any (·.1)) then none
   let pos ← match kv.lookup "pos" with
     | some p => p.toNat?
     | none => some pre.length
   if pos > pre.length then none
   let ap := kv.lookup "ap" == some "1"
   if ap && kind == Kind.at then none
-  pure { ap := ap, kind := kind, bs := bs, stream := kv.lookup "m" == some "s",
+  if nilw && (ap || !pre.isEmpty) then none
+  pure { ap := ap, kind := kind, bs := bs, stream := kv.lookup "m" == some "s", ctxMode := kv.lookup "m" == some "c", cx := cx, nilw := nilw,
          o := Drv.W.mkOpts (Drv.W.kvGet kv "a") (Drv.W.kvGet kv "h") (Drv.W.kvGet kv "l"),
          pvOpt := Drv.W.kvGet kv "pv", v := Drv.W.kvGet kv "v" == 1, pre := pre, pos := pos, faults := (fs.filter (!·.1)).map (·.2), shorts := (fs.filter (·.1)).map (·.2), hasF := hasF,
          cont := kv.lookup "c" == some "1", files := files }
@@ -86,13 +102,19 @@ def parse (args : List String) (needKind : Bool) : Option Cfg := do
 def faultsOf (fs : List (Nat × Nat)) : Faults := fun k => fs.lookup k
 
 def resName : Res → String
-  | .ok => "ok" | .err => "err" | .ep => "ep" | .ee => "ee" | .ev => "ev"
+  | .ok => "ok" | .err => "err" | .ep => "ep" | .ee => "ee" | .ev => "ev" | .ec => "ec"
 
 structure Out where
   results : Array Res := #[]
   hits : Array Nat := #[]
   d : Dest
   refused : Bool := false
+  /-- the guarded model (FitModel/WriterPanic.lean) reached `.panic` on the calls of this run -/
+  panicked : Bool := false
+  nilRun : Bool := false
+
+/-- on an encoder made with a nil writer the error of the output path is "writer is nil" (`en`), not a destination error -/
+def Out.resShow (o : Out) (r : Res) : String := if o.nilRun && r == .err then "en" else resName r
 
 def failedCount (d : Dest) : Nat := (d.log.filter fun op => !op.ok).length
 
@@ -101,6 +123,12 @@ def streamHdr (pvOpt : Nat) : Hdr := mkHdr 0 (selectProtoVer pvOpt 0) 0 Fit.Gen.
 
 def fitIn (pvOpt : Nat) (f : Drv.W.WFile) : FitIn :=
   { hdr := mkHdr f.size (selectProtoVer pvOpt f.protoVer) f.profileVer Fit.Gen.Wire.profileVersion, ds0 := f.dataSize, msgs := f.msgs }
+
+/-- the context of call number `i` of a batch run -/
+def ctxOf (c : Cfg) (i : Nat) : Ctx :=
+  match c.cx with
+  | some (j, k) => if i == j then some k else none
+  | none => none
 
 /-- one run (mirror of `wrRun` in the harness) for a validator `V` -/
 def runWith {σ : Type} (V : MsgValidator σ) (sc : StreamCfg) (c : Cfg) (fs : List (Nat × Nat)) : Out := Id.run do
@@ -133,6 +161,18 @@ def runWith {σ : Type} (V : MsgValidator σ) (sc : StreamCfg) (c : Cfg) (fs : L
       if r.2.2 != .ok && !c.cont then stop := true
     return out
   else
+    if c.ctxMode then
+      -- `EncodeWithContext`: the model with cancellation points (`encodeCtxV`); `cx=i.k` cancels the context of call `i` after `k` polls
+      let mut x : EncC := { e := Enc.new c.o c.kind c.bs d0 }
+      let mut i := 0
+      for f in c.files do
+        let before := failedInjected x.e.w.d
+        let r := encodeCtxV V pinnedCtxCfg F c.o (ctxOf c i) x (fitIn c.pvOpt f)
+        x := r.1
+        out := note out before x.e.w.d r.2
+        i := i + 1
+        if r.2 != .ok && !c.cont then break
+      return out
     let mut e := Enc.new c.o c.kind c.bs d0
     for f in c.files do
       let before := failedInjected e.w.d
@@ -194,13 +234,48 @@ def runWithR {σ : Type} (V : MsgValidator σ) (sc : StreamCfg) (c : Cfg) : Out 
       if r.2 != .ok && !c.cont then break
     return out
 
+/-- does the GUARDED model (every Go operation that can panic is a guarded operation) reach `.panic` on the calls of this run?
+All calls are made whatever their results (a superset of what the run does); `C11_no_panic` proves the answer is `false`. -/
+def panics {σ : Type} (V : MsgValidator σ) (sc : StreamCfg) (c : Cfg) (fs : List (Nat × Nat)) : Bool :=
+  let R := schedOf fs c.shorts
+  let d0 : Dest := { content := c.pre, pos := c.pos }
+  if c.stream then
+    let calls : List StreamCall := c.files.flatMap fun f => f.msgs.map StreamCall.writeMessage ++ [StreamCall.sequenceCompleted]
+    (runStreamCalls V R sc c.o (streamHdr c.pvOpt) (Stream.new c.o c.kind c.bs d0) V.init calls).isPanic
+  else
+    let calls : List EncCall := (List.range c.files.length).zip c.files |>.map fun (i, f) => ⟨ctxOf c i, fitIn c.pvOpt f⟩
+    (runEncCalls V pinnedCtxCfg c.nilw R c.o ⟨Enc.new c.o c.kind c.bs d0, false⟩ calls).isPanic
+
+/-- a run on an encoder made with a nil writer: the guarded model's own results (the plain model has no nil writer) -/
+def runNil {σ : Type} (V : MsgValidator σ) (c : Cfg) : Out :=
+  let d0 : Dest := { content := c.pre, pos := c.pos }
+  let calls : List EncCall := (List.range c.files.length).zip c.files |>.map fun (i, f) => ⟨ctxOf c i, fitIn c.pvOpt f⟩
+  match runEncCalls V pinnedCtxCfg true (schedOf [] []) c.o ⟨Enc.new c.o .plain c.bs d0, false⟩ calls with
+  | .panic => { d := d0, panicked := true, nilRun := true }
+  | .ret r =>
+    let rs := if c.cont then r.2 else
+      match r.2.findIdx? (· != .ok) with
+      | some i => r.2.take (i + 1)
+      | none => r.2
+    { d := d0, results := rs.toArray, nilRun := true }
+
 def run (c : Cfg) (fs : List (Nat × Nat)) : Out :=
-  if !c.shorts.isEmpty then (if c.v then runWithR markValidator pinnedStreamCfg c else runWithR passThrough pinnedStreamCfg c)
-  else if c.v then runWith markValidator pinnedStreamCfg c fs else runWith passThrough pinnedStreamCfg c fs
+  if c.nilw then (if c.stream then { d := { content := c.pre, pos := c.pos }, refused := true }
+    else if c.v then runNil markValidator c else runNil passThrough c) else
+  let o :=
+    if !c.shorts.isEmpty then (if c.v then runWithR markValidator pinnedStreamCfg c else runWithR passThrough pinnedStreamCfg c)
+    else if c.v then runWith markValidator pinnedStreamCfg c fs else runWith passThrough pinnedStreamCfg c fs
+  if o.refused then o else
+  { o with panicked := if c.v then panics markValidator pinnedStreamCfg c fs else panics passThrough pinnedStreamCfg c fs }
+
+def fnv (bs : Bytes) : UInt64 := bs.foldl (fun h b => (h ^^^ b.toUInt64) * 0x100000001b3) 0xcbf29ce484222325
+
+/-- digest of the bytes handed to one destination operation (low 32 bits of FNV-1a 64), as the harness logs it -/
+def opDig (p : Bytes) : String := hexN 8 ((fnv p).toNat % 4294967296)
 
 def showOp : DOp → String
-  | .write p t ok => s!"w{p.length}:{t}" ++ (if ok then "" else "!")
-  | .writeAt p off t ok => s!"a{p.length}@{off}:{t}" ++ (if ok then "" else "!")
+  | .write p t ok => s!"w{p.length}#{opDig p}:{t}" ++ (if ok then "" else "!")
+  | .writeAt p off t ok => s!"a{p.length}#{opDig p}@{off}:{t}" ++ (if ok then "" else "!")
   | .seek dlt ok => s!"s{dlt}" ++ (if ok then "" else "!")
 
 def joinOr (xs : List String) : String := if xs.isEmpty then "-" else ",".intercalate xs
@@ -210,7 +285,7 @@ def showCi : Fit.Integrity.Result → String
   | .err _ n => s!"bad:{n}"
 
 def showRun (o : Out) : String :=
-  s!"r={joinOr (o.results.toList.map resName)} hit={joinOr (o.hits.toList.map toString)} log={joinOr (o.d.log.reverse.map showOp)} out={hex o.d.content} ci={showCi (Fit.Integrity.checkIntegrity o.d.content)}"
+  s!"r={joinOr (o.results.toList.map o.resShow)} hit={joinOr (o.hits.toList.map toString)} log={joinOr (o.d.log.reverse.map showOp)} out={hex o.d.content} ci={showCi (Fit.Integrity.checkIntegrity o.d.content)}"
 
 def execWr (args : List String) : String :=
   match parse args true with
@@ -219,9 +294,7 @@ def execWr (args : List String) : String :=
     let o := run c c.faults
     -- O_APPEND: the same operations land elsewhere (Dest.runAppend)
     let o := if c.ap then { o with d := { o.d with content := (({ content := c.pre, pos := c.pos } : Dest).runAppend o.d.log.reverse).content } } else o
-    if o.refused then "refused" else showRun o
-
-def fnv (bs : Bytes) : UInt64 := bs.foldl (fun h b => (h ^^^ b.toUInt64) * 0x100000001b3) 0xcbf29ce484222325
+    if o.refused then "refused" else if o.panicked then "panic" else showRun o
 
 def opLen : DOp → Nat
   | .write p _ _ => p.length
@@ -269,9 +342,10 @@ def execWrX (args : List String) : String :=
   match parse args true with
   | none => "bad-op"
   | some c =>
-    if c.hasF || c.ap then "bad-op" else
+    if c.hasF || c.ap || c.nilw then "bad-op" else
     let base := run c []
     if base.refused then "refused" else
+    if base.panicked then "panic" else
     let pts := faultPoints base.d.log.reverse
     let entries := pts.map fun (k, j) =>
       let o := run c [(k, j)]
@@ -284,6 +358,7 @@ def execWrX (args : List String) : String :=
       let crash := ({ content := c.pre, pos := c.pos } : Dest).run (crashOps k j base.d.log.reverse)
       let tail := if o.d.content == replay c.pre c.pos base.d.log.reverse k j && o.d.log.length == k + 1 &&
           o.d.content == crash.content && o.d.pos == crash.pos && o.d.log == crash.log then tail else tail ++ "/not-a-crash-prefix"
+      if o.panicked then s!" {k}.{j}=panic/-/-/-" else
       s!" {k}.{j}={joinOr (o.results.toList.map resName)}/{joinOr (o.hits.toList.map toString)}/{hexN 16 (fnv o.d.content).toNat}/{showCi ci}{tail}"
     s!"n={pts.length}{String.join entries}"
 
@@ -355,6 +430,32 @@ def c11Run (c : Cfg) (results hits : List String) (ci : String) (out : Option By
     | some bs => if (boundaries c).contains bs then none else some "fail:incomplete-output-accepted"
   else none
 
+/-- `cx=i.k` on accepted input: is the cancellation observed by call `i` (it polls `ctxPolls` times)? -/
+def cancelObserved (c : Cfg) (fits : List (Hdr × List WMsg)) : Option Nat :=
+  match c.cx with
+  | some (i, k) =>
+    match fits[i]? with
+    | some f => if k < ctxPolls c.kind f.2.length then some i else none
+    | none => none
+  | none => none
+
+/-- a fault-free batch run through `EncodeWithContext` on accepted input whose call `i` observes the cancellation: the calls
+before it succeeded and their sequences are at the head of the destination; call `i` returns the context's error; when the
+caller goes on (`c=1`), every later call that reports success has left its sequence in the destination (C02: what the encoder
+reports as successfully written is there) — the sequences after `i` are at the tail -/
+def ctxProp (c : Cfg) (fits : List (Hdr × List WMsg)) (i : Nat) (results : List String) (out : Option Bytes) : String :=
+  match out with
+  | none => "fail:answer"
+  | some bs =>
+    if (results.take i).any (· != "ok") then "fail:accepted-input-failed"
+    else if results[i]? == some "ok" then "fail:cancel-swallowed"
+    else if results[i]? != some "ec" then "fail:cancelled-call-result"
+    else if !(c.pre ++ encodeChain c.o (fits.take i)).isPrefixOf bs then "fail:completed-sequences-damaged"
+    else if !c.cont then (if results.length == i + 1 then "ok" else "fail:calls-after-stop")
+    else if (results.drop (i + 1)).any (· != "ok") then "fail:accepted-input-failed-after-cancel"
+    else if !(encodeChain c.o (fits.drop (i + 1))).isSuffixOf bs then "fail:success-without-output"
+    else "ok"
+
 def listOf (s : String) : List String := if s == "-" then [] else s.splitOn ","
 
 def propWr (args : List String) (impl : String) : String :=
@@ -373,9 +474,15 @@ def propWr (args : List String) (impl : String) : String :=
           -- C09: a fault-free, accepted run leaves exactly pre ++ encodeChain (write-at destinations: the encoder's own, i.e. empty before)
           if c.hasF then "ok"
           else if (c.kind == .at && !c.pre.isEmpty) || c.pos != c.pre.length || c.ap then "n/a"
+          else if c.nilw then
+            -- an encoder without a writer: every call fails (validation first), nothing is written, nothing panics
+            (if results.all (fun r => r == "en" || r == "ee" || r == "ep" || r == "ev") && out == "" then "ok" else "fail:nil-writer")
           else match specChain c c.stream with
             | none => "n/a"
             | some fits =>
+              match cancelObserved c fits with
+              | some i => ctxProp c fits i results (unhex out)
+              | none =>
               if results.any (· != "ok") then "fail:accepted-input-failed"
               else if unhex out != some (c.pre ++ encodeChain c.o fits) then "fail:bytes-differ-from-spec"
               -- C02: the library's own integrity check accepts the stream and counts the same number of sequences
@@ -422,7 +529,17 @@ def propWrC (args : List String) (impl : String) : String :=
 def kfOf (args : List String) : String :=
   match parse args true with
   | none => "-"
-  | some c => if c.stream && c.files.length ≥ 2 && !pinnedStreamCfg.clearsHeader then "KF-C11-1" else "-"
+  | some c =>
+    if c.stream && c.files.length ≥ 2 && !pinnedStreamCfg.clearsHeader then "KF-C11-1"
+    -- KF-C09-ctx-discard (fixed in /repo 4876fc8; the class is empty for the repaired code): `EncodeWithContext` on a plain writer whose context is cancelled during the DRY RUN, and the caller
+    -- goes on using the encoder (a later FIT value exists)
+    else if !pinnedCtxCfg.restoresWriter && c.ctxMode && !c.stream && c.kind == .plain && !c.nilw && c.cont &&
+        (match c.cx with
+          | some (i, k) => (match c.files[i]? with
+            | some f => decide (k < f.msgs.length) && decide (i + 1 < c.files.length)
+            | none => false)
+          | none => false) then "KF-C09-ctx-discard"
+    else "-"
 
 def hWr : Handler := fun r =>
   match r.mode with
